@@ -183,6 +183,15 @@ static void ref_crashed(Link &l) {
     for (int i = 0; i < 3 && i < (int)l.hdr.size(); i++) { ogg_packet op = to_op(l.hdr[(size_t)i]); vorbis_synthesis_headerin(&vi, &vc, &op); } vorbis_comment_clear(&vc); vorbis_info_clear(&vi);
     decode_packets(l.hdr, l.audio, 0, pcm, &ch); }
 }
+std::string g_exec_prop;
+// A stream the encoder has just produced (possibly with one of the legal rewrites) that the packet-level decoder then refuses: before this was a
+// verdict the generators quietly avoided such links, so a change that made the decoder refuse a whole class of legal streams (say, every stream
+// without user comments) removed its own evidence from the corpus. Handled like a crashing reference decode: the run being generated is replaced
+// by a plan naming only this link, and inside an execution the refusal is the violation.
+static void ref_rejected(Link &l) {
+  g_ref_crash_seen = true; g_ref_crash_recipe = l.r;
+  if (g_in_exec) { SimViolation v; v.prop = g_exec_prop; v.cls = g_exec_prop + "/corpus/decoder-refused-encoder-output"; v.detail = fmt("the packet-level decode of a stream the encoder produced failed with %d (%s)", l.ref_err, l.r.key().c_str()); v.facts = {{"err", std::to_string(l.ref_err)}}; throw v; }
+}
 static bool probe_ref(const Link &l) {
   fflush(stdout); fflush(stderr);
   pid_t pid = fork();
@@ -202,7 +211,7 @@ static bool probe_ref(const Link &l) {
 std::shared_ptr<Link> get_link(const Recipe &r) {
   std::string k = r.key();
   auto it = g_cache.find(k);
-  if (it != g_cache.end()) { if (it->second->ref_crash) ref_crashed(*it->second); return it->second; }
+  if (it != g_cache.end()) { if (it->second->ref_crash) ref_crashed(*it->second); if (it->second->ref_reject) ref_rejected(*it->second); return it->second; }
   bool was = g_sim.alloc_active; g_sim.alloc_active = false;   // corpus production is outside the ledger window
   auto l = std::make_shared<Link>(); l->r = r;
   if (r.craft) craft_link(*l); else encode_link(*l);
@@ -226,6 +235,7 @@ std::shared_ptr<Link> get_link(const Recipe &r) {
   g_cache[k] = l;
   g_stats.inc("corpus.links_encoded");
   if (l->ref_crash) ref_crashed(*l);
+  if (l->ok && !l->ref_crash && !r.craft && l->ref_err != 0) { l->ref_reject = true; g_stats.inc("corpus.decoder_refused_encoder_output"); ref_rejected(*l); }
   return l;
 }
 void ensure_half(Link &l) {
